@@ -259,7 +259,7 @@ theorem callSeq_eff (ctx : Ctx) (kind : CallKind) (args : List AExpr) (gs gs' : 
   obtain ⟨b1, b2, b3, _, b5⟩ := bumpN_facts (countCalls args) { gs1 with offset := gs.offset }
   obtain ⟨c1', c2', c3', c4'⟩ := loadActuals_eff ctx args _ _ _ _ _ h2
   subst h4
-  simp only at b1 b2 b3 b5 c1' c2' c3' c4'
+  simp only at a1 a2 a3 a4 b1 b2 b3 b5 c1' c2' c3' c4'
   refine ⟨rfl, ?_, ?_, ?_⟩
   · simp only; omega
   · simp only; omega
